@@ -1,6 +1,7 @@
 package main
 
 import (
+	"go/constant"
 	"go/token"
 	"go/types"
 	"sort"
@@ -129,6 +130,19 @@ func pullsOn(fn *ssa.Function, field string, method string) []*ssa.Call {
 
 func guardedByField(b *ssa.BasicBlock, field string, ops ...token.Token) (bool, string) {
 	for _, g := range guardsOf(b) {
+		// if !iter.x.take() { return zero, false }: a counter type's method that uses up one unit and says whether there was
+		// one left - its true result is `counter > 0` (before the decrement it has just made)
+		if v, val := g.boolVal(); val {
+			if call, ok := v.(*ssa.Call); ok {
+				if f, isTake := takeLikeCall(call); isTake && f == field {
+					for _, op := range ops {
+						if op == token.GTR {
+							return true, path(call.Call.Args[0]) + ".take()"
+						}
+					}
+				}
+			}
+		}
 		if cf, ok := g.asCmp(); ok && strings.HasSuffix(path(cf.x), "."+field) {
 			for _, op := range ops {
 				if cf.op == op {
@@ -386,6 +400,20 @@ func ruleStickyEnd(c *Ctx, r *R) {
 					n++
 					if !isFieldIncDec(in, cfield, -1) {
 						good = false
+					}
+				}
+			}
+			// ... or through the counter type's take(): decrements by one, only while positive
+			if call, ok := in.(*ssa.Call); ok && cfield != "" {
+				if f, isTake := takeLikeCall(call); isTake && f == cfield {
+					n++
+				} else if len(call.Call.Args) > 0 {
+					// any other method handed the counter's address that stores through it is not a plain decrement
+					if fa, isFA := call.Call.Args[0].(*ssa.FieldAddr); isFA && fieldName(fa.X.Type(), fa.Field) == cfield && fa.X == ssa.Value(fn.Params[0]) {
+						if cal := staticCallee(&call.Call); cal != nil && storesThroughParam0(cal) {
+							n++
+							good = false
+						}
 					}
 				}
 			}
@@ -702,6 +730,14 @@ func counterField(fn *ssa.Function) string {
 	iff, ok := fn.Blocks[0].Instrs[len(fn.Blocks[0].Instrs)-1].(*ssa.If)
 	if !ok {
 		return ""
+	}
+	// the counter lives in a small type of its own: if !iter.x.take() { ... }
+	if v, _ := (guard{cond: iff.Cond, val: true}).boolVal(); v != nil {
+		if call, ok := v.(*ssa.Call); ok {
+			if f, isTake := takeLikeCall(call); isTake {
+				return f
+			}
+		}
 	}
 	for _, val := range []bool{true, false} {
 		cf, ok := (guard{cond: iff.Cond, val: val}).asCmp()
@@ -1089,4 +1125,83 @@ func fieldOnlyCountsUp(c *Ctx, v ssa.Value) bool {
 		})
 	}
 	return good && n > 0
+}
+
+// takeLikeCall: call hands the address of a field of the caller's receiver to a method of a small counter type that (a) stores
+// through that pointer only `*p - 1`, (b) only where `*p > 0` has been established, and (c) returns true exactly on the paths
+// that made the store (func (c *countdown) take() bool { if *c <= 0 { return false }; *c--; return true }). Returns the field.
+func takeLikeCall(call *ssa.Call) (string, bool) {
+	if call.Call.IsInvoke() || len(call.Call.Args) != 1 {
+		return "", false
+	}
+	fa, ok := call.Call.Args[0].(*ssa.FieldAddr)
+	if !ok {
+		return "", false
+	}
+	cal := staticCallee(&call.Call)
+	if !storesThroughParam0(cal) {
+		return "", false
+	}
+	p := cal.Params[0]
+	var stores []*ssa.Store
+	okAll := true
+	instrs(cal, func(b *ssa.BasicBlock, _ int, in ssa.Instruction) {
+		st, isSt := in.(*ssa.Store)
+		if !isSt {
+			return
+		}
+		stores = append(stores, st)
+		bin, isBin := st.Val.(*ssa.BinOp)
+		if !isBin || bin.Op != token.SUB || !isConstInt(bin.Y, 1) {
+			okAll = false
+			return
+		}
+		if ld, isLd := bin.X.(*ssa.UnOp); !isLd || ld.Op != token.MUL || ld.X != ssa.Value(p) {
+			okAll = false
+			return
+		}
+		positive := false
+		for _, g := range guardsOf(b) {
+			if cf, isCmp := g.asCmp(); isCmp && cf.op == token.GTR && isConstInt(cf.y, 0) {
+				if ld, isLd := cf.x.(*ssa.UnOp); isLd && ld.Op == token.MUL && ld.X == ssa.Value(p) {
+					positive = true
+				}
+			}
+		}
+		if !positive {
+			okAll = false
+		}
+	})
+	if !okAll || len(stores) == 0 {
+		return "", false
+	}
+	// true is returned exactly where a store has happened
+	instrs(cal, func(b *ssa.BasicBlock, _ int, in ssa.Instruction) {
+		ret, isRet := in.(*ssa.Return)
+		if !isRet {
+			return
+		}
+		if len(ret.Results) != 1 {
+			okAll = false
+			return
+		}
+		k, isK := returnedValue(ret, 0).(*ssa.Const)
+		if !isK || k.Value == nil || k.Value.Kind() != constant.Bool {
+			okAll = false
+			return
+		}
+		after := false
+		for _, st := range stores {
+			if st.Block() == b || st.Block().Dominates(b) {
+				after = true
+			}
+		}
+		if constant.BoolVal(k.Value) != after {
+			okAll = false
+		}
+	})
+	if !okAll {
+		return "", false
+	}
+	return fieldName(fa.X.Type(), fa.Field), true
 }
